@@ -3,7 +3,7 @@
    regenerated from /repo on every run (constant + source text of the helpers, tied in
    Proofs_shape.v).  Names are label lists, root first; [canon] folds ASCII case. *)
 From Sdns Require Import Common.Base Gen.C07 C07.Model C07.Proofs_names C07.Proofs_exchange
-  C07.Proofs_glue C07.Proofs_referral C07.Proofs_contain C07.Proofs_chase C07.Proofs_gluehist C07.Proofs_shape.
+  C07.Proofs_glue C07.Proofs_referral C07.Proofs_contain C07.Proofs_chase C07.Proofs_gluehist C07.Proofs_local C07.Proofs_fold C07.Proofs_zone C07.Proofs_shape.
 Open Scope N_scope.
 
 (* A reply is accepted only when it parses, carries the outstanding query's ID and - when the
@@ -208,3 +208,40 @@ Theorem glue_cache_lookup_sound :
   Forall (addr_ok local) v /\ exists e k, In e evs /\ filed_by e k /\ name_eqb host k = true.
 Proof. exact glue_history_lookup. Qed.
 Print Assumptions glue_cache_lookup_sound.
+
+(* LOCAL-INTERFACE ADDRESSES.  [local] = the addresses configured on the resolver host's interfaces
+   (unmapped).  Whatever spelling a record uses - 4 octets, 16 octets, 4-in-6 - an address that,
+   unmapped, is one of them (or loopback) is not usable ... *)
+Theorem local_interface_address_unusable :
+  forall local ip a0, addr_from_slice ip = Some a0 ->
+  mem_ip (unmap a0) local = true \/ is_loopback (unmap a0) = true -> usable_addr local ip = None.
+Proof. exact local_or_loopback_unusable. Qed.
+Print Assumptions local_interface_address_unusable.
+
+(* ... so nothing an accepted referral lists as a server of the delegation (the addresses that will be
+   dialled) or files in the NS-address caches is a local-interface or loopback address *)
+Theorem referral_never_yields_local_server :
+  forall ipv6 local level auth q m o g,
+  referral_glue ipv6 local level auth q m = Some (o, g) ->
+  (forall a, In a (gr_servers g) -> is_loopback a = false /\ mem_ip a local = false) /\
+  (forall n l a, In (n, l) (gr_addrs4 g ++ gr_addrs6 g) -> In a l -> is_loopback a = false /\ mem_ip a local = false).
+Proof. exact referral_glue_addrs_ok. Qed.
+Print Assumptions referral_never_yields_local_server.
+
+(* TRANSLATOR TIE, byte level.  [go_equalFold] is srcgen's translation of internal/dnsname.equalFold (the
+   label comparison under dnsname.CompareSuffix / Sub, hence under the glue bailiwick test, the referral
+   progress test and the zone filter of the answer); given fuel for its loop it computes the model's
+   [label_eqb] - the comparison [compare_suffix], [is_sub] and [name_eqb] are made of. *)
+Theorem label_comparison_is_dnsname_equalFold :
+  forall fuel a b, (length a < fuel)%nat -> go_equalFold fuel a b = Some (label_eqb a b).
+Proof. exact gen_equalFold. Qed.
+Print Assumptions label_comparison_is_dnsname_equalFold.
+
+(* TRANSLATOR TIE, the zone filter of Resolver.answer.  [go_NameInZone] is srcgen's translation of
+   internal/dnsutil.NameInZone (presentation-format octet strings): it accepts a name only when the zone is
+   the root (or empty), the name is the zone itself, or the name ends in "." followed by the zone. *)
+Theorem zone_filter_accepts_only_dot_suffixes :
+  forall fuel nm zone, go_NameInZone fuel nm zone = Some true ->
+  zone = [46] \/ zone = [] \/ nm = zone \/ exists pre, nm = pre ++ [46] ++ zone.
+Proof. exact NameInZone_true_shape. Qed.
+Print Assumptions zone_filter_accepts_only_dot_suffixes.
